@@ -3,7 +3,7 @@ import json, os, random, time
 import vlib
 from checks import dpgen
 
-TRACE_KEEP = {"Reset", "Emit", "Proc", "Write", "Confirm", "Reject", "DlqWrite", "DlqConfirm", "DlqReject",
+TRACE_KEEP = {"Reset", "Emit", "EmitLost", "Proc", "Write", "Confirm", "Reject", "DlqWrite", "DlqConfirm", "DlqReject",
               "SrcAck", "Durable", "Open", "Teardown", "Restore", "Call", "Ret", "End", "Hang", "Panic",
               "Fault", "HarnessError", "ChildTimeout"}
 
@@ -16,8 +16,9 @@ INV_OF = {
     "C05": {"DestOrder", "NoDupWrite", "WriteDerived"},
     "C06": {"AckedBeforeTeardown", "NoHalfHandled", "StoredIsLastAcked", "TornDownOnce", "NoHang",
             "TeardownMatchesOpen", "AckPrefix"},
-    "C07": {"DlqOnce", "DlqSourceOrder", "DlqBeforeAck", "DlqCarriesOriginal", "DlqDecision", "DlqFailNoAck"},
-    "C08": {"ExactlyOne", "WriteDerived", "SplitAllBeforeAck", "PieceFailDlqOnce", "PositionImmutable"},
+    "C07": {"DlqOnce", "DlqSourceOrder", "DlqBeforeAck", "DlqCarriesOriginal", "DlqDecision", "DlqFailNoAck", "DlqStops"},
+    "C08": {"ExactlyOne", "WriteDerived", "NoEarlyAck", "DlqOnce", "DlqOriginal", "PositionImmutable", "AckPrefix",
+            "NoDupWrite", "DestOrder"},
     "C09": {"NoPanic", "NoHang", "NoEarlyAck", "CondAligned"},
 }
 
